@@ -130,3 +130,63 @@ Theorem C03_stream_example :
     ([JArr [JInt 1]; JStr [97]; JObj [([107], JInt 2)]], TE_continue).
 Proof. eexists. split; [reflexivity|]. split; [split; reflexivity|]. vm_compute. reflexivity. Qed.
 Print Assumptions C03_stream_example.
+
+(* ---- the stream clause in full: chunked feed vs one call on the whole buffer (TokStream2.v) ----
+   [feed_docs t cs] is the caller's loop: per chunk, parse; on success emit the value and go on at
+   the reported end inside the chunk; on "continue" take the next chunk; on an error stop.  For
+   every list of chunks (no NUL byte; with VALIDATE_UTF8 no cut inside a multi-byte sequence —
+   chunk_ok; that restriction is needed: C03_u8_cut_refuted) and flags under which bytes may follow
+   a document (non-strict, or strict + allow-trailing): the chunked feed ends with the same error,
+   if any, as the single call sequence on the whole buffer, and yields the same documents — except
+   that it may be ONE document ahead at the end, when a cut fell between a document and the
+   blanks/comment behind it and the whole-buffer call is still inside that (unterminated) comment
+   or has failed in it (the first call at that cut returned the value, not "more input needed":
+   outside the premise of the property's first sentence). *)
+From JC Require Import TokStrictTrail TokStream2.
+
+Theorem C03_stream_chunks : forall sb t cs,
+  as_new t -> mode_ok (strict t) (allow_trailing t) = true ->
+  Forall (chunk_ok (validate_utf8 t)) cs ->
+  let (vc, ec) := feed_docs sb t cs in
+  let (vw, ew) := feed_docs sb t [concat cs] in
+  ec = ew /\ (vc = vw \/ exists v, vc = vw ++ [v]).
+Proof. exact stream_chunks. Qed.
+Print Assumptions C03_stream_chunks.
+
+Theorem C03_stream_chunks_novalidate : forall sb t cs,
+  as_new t -> mode_ok (strict t) (allow_trailing t) = true -> validate_utf8 t = false ->
+  Forall (Forall (fun b => b <> 0)) cs ->
+  let (vc, ec) := feed_docs sb t cs in
+  let (vw, ew) := feed_docs sb t [concat cs] in
+  ec = ew /\ (vc = vw \/ exists v, vc = vw ++ [v]).
+Proof. exact stream_chunks_novalidate. Qed.
+Print Assumptions C03_stream_chunks_novalidate.
+
+(* non-vacuity and sharpness, evaluated inside Coq: same documents for cuts after a document, inside
+   a comment, inside tokens, byte by byte; one document ahead for `true /* a` cut after `true `; the
+   same error with `true /x`; strict + allow-trailing; cuts at character boundaries under
+   VALIDATE_UTF8; and the refutation of the statement without chunk_ok *)
+Theorem C03_stream_examples :
+  (feed_docs sb0 (tnew false false false) [ex_stream] = (ex_values, None) /\
+   feed_docs sb0 (tnew false false false) (cut2 3 7 ex_stream) = (ex_values, None) /\
+   feed_docs sb0 (tnew false false false) (map (fun b => [b]) ex_stream) = (ex_values, None)) /\
+  (feed_docs sb0 (tnew false false false) [ex_open] = ([], None) /\
+   feed_docs sb0 (tnew false false false) (cut 5 ex_open) = ([JBool true], None)) /\
+  (feed_docs sb0 (tnew false false false) [ex_bad] = ([], Some TE_comment) /\
+   feed_docs sb0 (tnew false false false) (cut 5 ex_bad) = ([JBool true], Some TE_comment)).
+Proof.
+  split; [|split].
+  - destruct ex_stream_cuts as (A & _ & _ & B & _ & C & _). repeat split; assumption.
+  - destruct ex_open_cuts as (A & B & _). split; assumption.
+  - destruct ex_bad_cuts as (A & B & _). split; assumption.
+Qed.
+Print Assumptions C03_stream_examples.
+
+Theorem C03_u8_cut_refuted :
+  let t := tnew false false true in
+  let cs := [[34;195];[169;34]] in
+  as_new t /\ mode_ok (strict t) (allow_trailing t) = true /\ Forall (Forall (fun b => b <> 0)) cs /\
+  feed_docs sb0 t cs = ([], Some TE_utf8) /\
+  feed_docs sb0 t [concat cs] = ([JStr [195;169]], None).
+Proof. exact u8_cut_refuted. Qed.
+Print Assumptions C03_u8_cut_refuted.
